@@ -138,7 +138,7 @@ def gen(rng, tier):
             rates = rc.pick_rates(rng)
             nsrc = rng.choice([1, 1, 2, 3])
             sources = ["s%d" % i for i in range(nsrc)]
-            lines = ["cfg rate %s cap=%d" % (rc.fmt_rates(rates), nsrc + rng.choice([0, 1]))]
+            lines = ["cfg rate %s cap=%s" % (rc.fmt_rates(rates), "default" if rng.random() < 0.2 else str(nsrc + rng.choice([0, 1])))]
             body = rc.gen_source_ops(rng, rates, sources, rng.randint(20, 140), allow_retry=False, allow_rates=rng.random() < 0.1)
             out = []
             for l in body:
@@ -161,7 +161,7 @@ def monitor(ops, outs):
     bad = []
     minb = min(r[2] for r in rates)
     full = max(r[2] * rc.tpt(r) for r in rates)
-    cap = (int(rc.kv(cfg, "cap") or 0) or 65536) if kind == "rate" else 1
+    cap = rc.cap_of(cfg) if kind == "rate" else 1
     within_cap = len(set(e.src for e in evs)) <= cap
     last = {}
     inst = {}      # src -> (t, {amount: (status, delay)} of refused requests since the last change at this instant)
